@@ -36,7 +36,7 @@ ASSUMPTIONS = ["clause 'exactly the most recent port' is judged only when "
 REQUIRED = ["frames", "arrivals_judged", "floods", "known_dst_forwards",
             "exact_port_checks", "cached_flow_hits", "filtered_frames",
             "host_moves", "buffers_released", "timeouts_crossed",
-            "unbuffered_packet_ins", "bursts"]
+            "unbuffered_packet_ins", "bursts", "frames_to_own_source"]
 TIMEOUT = {"quick": 1200, "thorough": 9000}
 
 HOSTS = [bytes.fromhex("0200000000%02x" % (0xa0 + i)) for i in range(5)]
@@ -226,7 +226,14 @@ def run_case (case, rep):
     filtered = etype == 0x88cc or (s_dst[:5] == b"\x01\x80\xc2\x00\x00"
                                    and s_dst[5] <= 0x0f)
     known = s_dst in seen[i]
-    if filtered:
+    if s_dst == s_src and not filtered:
+      # a bridge learns the source first: the destination is then known on
+      # the very port the frame came in on, and the frame goes nowhere
+      rep.count("frames_to_own_source")
+      if ports:
+        fire("frame addressed to its own source was forwarded",
+             "switch %d in %d out %r" % (i, port, ports)); return False
+    elif filtered:
       rep.count("filtered_frames")
       if ports:
         fire("link-local bridge-filtered frame was forwarded",
@@ -289,6 +296,7 @@ def run_case (case, rep):
         elif dst_kind == "mcast": dst = MCAST
         elif dst_kind == "stp": dst = STP
         elif dst_kind == "lldpdst": dst = LLDP_DST
+        elif dst_kind == "self": dst = src        # loopback / keepalive frames
         else: dst = HOSTS[dst_kind]
         raw = frame_for(src, dst, variant, size, uid)
         rep.count("frames")
@@ -373,7 +381,7 @@ def gen_exhaustive (n, shard, nshards, nsw):
     for d in [0, 1, 2, "bcast"]:
       if d == h: continue
       sym.append((h, d))
-  sym.append((0, "stp")); sym.append((1, "lldpdst"))
+  sym.append((0, "stp")); sym.append((1, "lldpdst")); sym.append((0, "self"))
   i = 0
   for combo in itertools.product(sym, repeat=n):
     for pool in (0, 1, 100):
@@ -406,7 +414,8 @@ def gen_random (rng, count, maxlen):
       if rng.random() < 0.08:
         att[h] = (rng.randrange(nsw), rng.choice([3, 4]))   # host moves
       r = rng.random()
-      if r < 0.62: d = rng.choice([x for x in range(nh) if x != h])
+      if r < 0.58: d = rng.choice([x for x in range(nh) if x != h])
+      elif r < 0.62: d = "self"
       elif r < 0.77: d = "bcast"
       elif r < 0.85: d = "mcast"
       elif r < 0.92: d = "stp"
